@@ -580,6 +580,8 @@ pub trait Object {
                     },
                 }
             }
+            // NOTE: A step that found nothing ends the lookup, it must not restart from the root
+            v.as_ref()?;
         }
         v
     }
@@ -630,6 +632,8 @@ pub trait Object: Send + Sync {
                     },
                 }
             }
+            // NOTE: A step that found nothing ends the lookup, it must not restart from the root
+            v.as_ref()?;
         }
         v
     }
